@@ -44,7 +44,7 @@
 #define NSLOT 6
 
 struct send {
-	int drule, delay, ty, pid;
+	int drule, drule2, delay, ty, pid;
 };
 struct outcome {
 	int ns, nsends;
@@ -55,7 +55,7 @@ struct trans {
 	struct outcome out[MAXD];
 };
 SHARED struct model_tables {
-	int nlps, K, T, P;
+	int nlps, K, T, P, split;
 	int need[MAXLP], cap[MAXLP];
 	int endmask[MAXK];
 	int psize[MAXP];
@@ -91,6 +91,7 @@ static void model_load(const char *path)
 	M.K = rdint(f);
 	M.T = rdint(f);
 	M.P = rdint(f);
+	M.split = rdint(f);
 	if(M.nlps > MAXLP || M.K > MAXK || M.T > MAXT || M.P > MAXP)
 		die("model too large");
 	for(int i = 0; i < M.nlps; ++i)
@@ -109,6 +110,7 @@ static void model_load(const char *path)
 		M.ninit[i] = rdint(f);
 		for(int j = 0; j < M.ninit[i]; ++j) {
 			M.init[i][j].drule = rdint(f);
+			M.init[i][j].drule2 = rdint(f);
 			M.init[i][j].delay = rdint(f);
 			M.init[i][j].ty = rdint(f);
 			M.init[i][j].pid = rdint(f);
@@ -126,6 +128,7 @@ static void model_load(const char *path)
 				e->out[d].nsends = rdint(f);
 				for(int j = 0; j < e->out[d].nsends; ++j) {
 					e->out[d].sends[j].drule = rdint(f);
+					e->out[d].sends[j].drule2 = rdint(f);
 					e->out[d].sends[j].delay = rdint(f);
 					e->out[d].sends[j].ty = rdint(f);
 					e->out[d].sends[j].pid = rdint(f);
@@ -495,7 +498,7 @@ static void do_sends(lp_id_t me, simtime_t now, const struct send *sends, int n)
 {
 	for(int j = 0; j < n; ++j) {
 		const struct send *sd = &sends[j];
-		lp_id_t dest = (me + (lp_id_t)sd->drule) % (lp_id_t)M.nlps;
+		lp_id_t dest = (me + (lp_id_t)((int)me < M.split ? sd->drule : sd->drule2)) % (lp_id_t)M.nlps;
 		if(serial_mode)
 			EMIT("\"e\":\"Sched\",\"lp\":%d,\"d\":%d,\"t\":%ld,\"ty\":%d,\"sz\":%d,\"pid\":%d", (int)me,
 			    (int)dest, t2i(now + sd->delay), sd->ty, M.psize[sd->pid], sd->pid);
@@ -922,7 +925,7 @@ int main(int argc, char **argv)
 	batch_size = 64;
 	const char *model = NULL, *outp = NULL, *script = NULL, *stats = NULL;
 	int net_mode = 0;
-	unsigned skew = 0;
+	unsigned skew = 0, park = 0;
 	int threads = 2, ckpt = 0, policy = 0;
 	unsigned gvt_period = 0, num = 1, den = 4;
 	unsigned long budget = 4000000, seed = 1, prng = 12345;
@@ -951,6 +954,7 @@ int main(int argc, char **argv)
 		else if(!strcmp(a, "--batch")) batch_size = (unsigned)atoi(v), ++i;
 		else if(!strcmp(a, "--ranks")) dist_ranks = atoi(v), ++i;
 		else if(!strcmp(a, "--skew")) skew = (unsigned)atoi(v), ++i;
+		else if(!strcmp(a, "--park")) park = (unsigned)atoi(v), ++i;
 		else if(!strcmp(a, "--net")) net_mode = atoi(v), ++i;
 		else die("unknown argument");
 	}
@@ -969,9 +973,9 @@ int main(int argc, char **argv)
 
 	fprintf(out,
 	    "{\"n\":0,\"thr\":-1,\"e\":\"Config\",\"serial\":%d,\"threads\":%d,\"ckpt\":%d,\"period\":%u,\"seed\":%lu,"
-	    "\"prng\":%lu,\"term\":%ld,\"nlps\":%d,\"batch\":%u,\"nev\":%d,\"sw\":\"%u/%u\",\"policy\":%d,\"stopat\":%ld,\"ranks\":%d,\"net\":%d,\"skew\":%u}\n",
+	    "\"prng\":%lu,\"term\":%ld,\"nlps\":%d,\"batch\":%u,\"nev\":%d,\"sw\":\"%u/%u\",\"policy\":%d,\"stopat\":%ld,\"ranks\":%d,\"net\":%d,\"skew\":%u,\"park\":%u}\n",
 	    serial_mode, threads, ckpt, gvt_period, seed, prng, term_time > 0 ? (long)term_time : INF_T, M.nlps, batch_size, never_end, num, den, policy, stop_at,
-	    dist_ranks, net_mode, skew);
+	    dist_ranks, net_mode, skew, park);
 
 	vs_set_hang_cb(on_hang);
 	vs_init(seed, num, den, budget, policy);
@@ -984,6 +988,8 @@ int main(int argc, char **argv)
 #endif
 	if(script)
 		vs_load_script(script);
+	if(park)
+		vs_park(1, VP_EXTRACT, park); /* the worker with the highest thread id is created first: delay it when it enters its main loop */
 	if(skew)
 		vs_set_skew(VP_TPHASE, skew); /* let threads drift apart at the GVT thread-phase transitions */
 	int r = run_all(threads, ckpt, gvt_period, term_time, stats, prng);
